@@ -72,7 +72,8 @@ theorem quoted_scalarTok_sq {body s : List Char} (h : QuotedBody '\'' readSq bod
 
 theorem quoted_keyTok_dq {body s : List Char} (h : QuotedBody '"' readDq body s) : KeyTok ('"' :: body) s := by
   refine ⟨?_, fun after => by simp [classify], ⟨'"', body, rfl, by decide⟩, ?_,
-    fun after => notMarker_head (t := ('"' :: body) ++ ':' :: after) rfl (Or.inl (by decide)) (by decide) 0⟩
+    fun after => notMarker_head (t := ('"' :: body) ++ ':' :: after) rfl (Or.inl (by decide)) (by decide) 0,
+    quoted_scalarTok_dq h⟩
   · intro after ha
     have := h.read (':' :: after) (by simp)
     simp [implicitKey, skipTag, this, ha]
@@ -84,7 +85,8 @@ theorem quoted_keyTok_dq {body s : List Char} (h : QuotedBody '"' readDq body s)
 
 theorem quoted_keyTok_sq {body s : List Char} (h : QuotedBody '\'' readSq body s) : KeyTok ('\'' :: body) s := by
   refine ⟨?_, fun after => by simp [classify], ⟨'\'', body, rfl, by decide⟩, ?_,
-    fun after => notMarker_head (t := ('\'' :: body) ++ ':' :: after) rfl (Or.inl (by decide)) (by decide) 0⟩
+    fun after => notMarker_head (t := ('\'' :: body) ++ ':' :: after) rfl (Or.inl (by decide)) (by decide) 0,
+    quoted_scalarTok_sq h⟩
   · intro after ha
     have := h.read (':' :: after) (by simp)
     simp [implicitKey, skipTag, this, ha]
